@@ -33,6 +33,7 @@ pub struct RunResult {
     pub final_eh: Option<(u64, [u8; 32])>,
     pub final_db: Vec<DbRecord>,
     pub txn_left_open: bool,
+    pub fault_fired: bool,
 }
 
 macro_rules! with_cfg {
@@ -65,13 +66,17 @@ async fn join_or_stuck<T>(h: tokio::task::JoinHandle<T>, stuck: T, panicked: imp
     }
 }
 
-fn run_once<TC: akd::configuration::Configuration>(base: &[DbRecord], batches: &[Batch], cache: &str, prefs: &[usize]) -> RunResult {
+fn run_once<TC: akd::configuration::Configuration>(base: &[DbRecord], batches: &[Batch], cache: &str, prefs: &[usize], fault: Option<(usize, usize)>) -> RunResult {
     let rt = tokio::runtime::Builder::new_current_thread().enable_all().build().unwrap();
     rt.block_on(async {
         let db = SchedDb::from_records(base).await;
         let mgr = make_mgr(db.clone(), cache);
         let dir = Directory::<TC, _, _>::new(mgr.clone(), HardCodedAkdVRF {}, AzksParallelismConfig::disabled()).await.unwrap();
         let _ = dir.get_epoch_hash().await;
+        if let Some((t, n)) = fault {
+            db.ctl.fail_index.store(n, Ordering::SeqCst);
+            db.ctl.fail_task.store(t + 1, Ordering::SeqCst);
+        }
         db.ctl.enabled.store(true, Ordering::SeqCst);
         let mut handles = vec![];
         for (i, b) in batches.iter().enumerate() {
@@ -83,6 +88,8 @@ fn run_once<TC: akd::configuration::Configuration>(base: &[DbRecord], batches: &
         let hs2 = hs.clone();
         let choices = drive(&db.ctl, batches.len(), prefs, &move |i| hs2[i].is_finished()).await;
         db.ctl.enabled.store(false, Ordering::SeqCst);
+        db.ctl.fail_task.store(0, Ordering::SeqCst);
+        let fault_fired = db.ctl.fail_fired.load(Ordering::SeqCst);
         let mut outcomes = vec![];
         let hs = Arc::try_unwrap(hs).ok().unwrap();
         for h in hs {
@@ -90,7 +97,7 @@ fn run_once<TC: akd::configuration::Configuration>(base: &[DbRecord], batches: &
         }
         let final_eh = dir.get_epoch_hash().await.ok().map(|e| (e.0, e.1));
         let trace = db.ctl.trace.lock().unwrap().clone();
-        RunResult { outcomes, trace, choices, final_eh, final_db: db.snapshot().await, txn_left_open: mgr.is_transaction_active() }
+        RunResult { outcomes, trace, choices, final_eh, final_db: db.snapshot().await, txn_left_open: mgr.is_transaction_active(), fault_fired }
     })
 }
 
@@ -757,6 +764,13 @@ pub fn step(ex: &mut Exec, st: &mut L1State, op: &str, toks: &[&str]) -> Option<
             let bound: usize = toks[1].parse().ok()?;
             let mut batches: Vec<Batch> = vec![vec![]];
             let mut i = 2;
+            // `fault:<task>:<n>`: the n-th single-record read (not of the epoch record) of that task's publish fails once
+            let mut fault: Option<(usize, usize)> = None;
+            if let Some(f) = toks[2].strip_prefix("fault:") {
+                let (a, b) = f.split_once(':')?;
+                fault = Some((a.parse().ok()?, b.parse().ok()?));
+                i = 3;
+            }
             while i < toks.len() {
                 if toks[i] == "|" {
                     batches.push(vec![]);
@@ -784,7 +798,7 @@ pub fn step(ex: &mut Exec, st: &mut L1State, op: &str, toks: &[&str]) -> Option<
                     if runs >= max_runs {
                         break;
                     }
-                    let r = run_once::<TC>(&base, &batches, &cache, &prefs);
+                    let r = run_once::<TC>(&base, &batches, &cache, &prefs, fault);
                     let chosen: Vec<usize> = r.choices.iter().map(|c| c.chosen).collect();
                     if !seen.insert(chosen.clone()) {
                         continue;
@@ -806,7 +820,7 @@ pub fn step(ex: &mut Exec, st: &mut L1State, op: &str, toks: &[&str]) -> Option<
                         }
                     }
                     // the trace, for validation by the model (phases per task, epoch stamps)
-                    if traces.len() < 400 {
+                    if traces.len() < 400 && fault.is_none() {
                         let ev: Vec<String> = r.trace.iter().map(|(t, k, d)| format!("{t}:{k}:{d}")).collect();
                         // the commits as the CALLERS saw them: (task, epoch returned), in epoch order
                         let mut oc: Vec<(u64, usize)> = r.outcomes.iter().enumerate().filter_map(|(i, o)| match o { Ok((e, _)) if *e > base_epoch => Some((*e, i)), _ => None }).collect();
@@ -829,7 +843,7 @@ pub fn step(ex: &mut Exec, st: &mut L1State, op: &str, toks: &[&str]) -> Option<
                 (runs, violations, traces)
             });
             st.sched_traces.extend(traces);
-            ex.stats.bump(op, &format!("tasks{}-bound{}-runs{}", batches.len(), bound, (runs / 100) * 100));
+            ex.stats.bump(op, &format!("tasks{}-bound{}-runs{}{}", batches.len(), bound, (runs / 100) * 100, if fault.is_some() { "-fault" } else { "" }));
             Some(format!("violations={violations}"))
         }
         _ => crate::exec_l4::step(ex, st, op, toks),
